@@ -143,6 +143,9 @@ template <class T> static void sphere (Gen<T>& g, int it)
     Rec r ("sphere"); r.str ("t", t); r.num ("fam", fam); r.raw ("c", jv (c)); r.raw ("r", jw (rad)); putline (r, "pos", "dir", l);
     r.num ("okT", okT); r.raw ("tt", jw (tt)); r.raw ("lt", jv (l (tt))); r.num ("ok", ok); r.raw ("pt", jv (pt)); r.emit ();
     Vec3<T> mn = vmode (g, it % 3), ext (std::fabs (g.pick (it % 3)), std::fabs (g.pick (it % 3)), std::fabs (g.pick (it % 3)));
+    if (it % 4 == 1) ext[g.rng.below (3)] = 0;                                     // a rectangle: flat on one axis
+    if (it % 4 == 2) { int k = g.rng.below (3); ext[(k + 1) % 3] = 0; ext[(k + 2) % 3] = 0; }   // a segment: flat on two
+    if (it % 16 == 3) ext = Vec3<T> (0, 0, 0);                                    // a single point
     Box<Vec3<T>> bx (mn, mn + ext);
     Sphere3<T> C; C.circumscribe (bx);
     Rec q ("circ"); q.str ("t", t); q.raw ("mn", jv (bx.min)); q.raw ("mx", jv (bx.max)); q.raw ("c", jv (C.center)); q.raw ("r", jw (C.radius)); q.emit ();
@@ -183,6 +186,8 @@ template <class T> static void triangle (Gen<T>& g, int it)
     T ang = (it % 4 == 0) ? T (g.rng.range (-4, 4)) * T (M_PI / 4) : g.full () * 2;
     Vec3<T> rp = iv (g, 12);
     if ((rp - m.closestPointTo (rp)).length2 () == 0) rp += Vec3<T> (w.y, -w.x, 0) + Vec3<T> (0, w.z, -w.y);
+    // every sixth point lies ON the axis (the origin of an axis-aligned line, or that origin moved along it): it stays where it is
+    if (it % 6 == 5) { Vec3<T> ax (0, 0, 0); ax[it % 3] = (T) (it % 2 ? 2 : -3); m.pos = iv (g); m.dir = ax.normalized (); rp = m.pos + m.dir * T ((it / 6) % 5); }
     Rec q ("rotpt"); q.str ("t", t); q.raw ("p", jv (rp)); putline (q, "pos", "dir", m); q.raw ("ang", jw (ang)); q.raw ("cos", jw ((T) std::cos (ang))); q.raw ("sin", jw ((T) std::sin (ang)));
     q.raw ("q", jv (m.closestPointTo (rp))); q.raw ("r", jv (rotatePoint (rp, m, ang))); q.emit ();
 }
